@@ -26,6 +26,7 @@ func (u *UseCase) UpdateTx(ctx context.Context, oldTxId, newTxId string, filter 
 
 	newTx, ok := u.txStore.Get(newTxId)
 	if !ok {
+		verifhook.At("utx.create")
 		newTx = u.txPool.Acquire()
 		u.txStore.Put(newTxId, newTx)
 	}
